@@ -44,6 +44,9 @@ type RunStat struct {
 	CBCalls      int
 	BuildErrors  int
 	Stray        int64
+	Blocked      int64
+	Deadlock     bool
+	Unwound      bool // the run was aborted (hang or deadlock): library locks may be left held
 	TraceHash    uint64
 	CaseHash     uint64 // workload x schedule identity
 	Nontrivial   bool
@@ -214,7 +217,7 @@ func trunc(b []byte, n int) string {
 }
 
 // compare applies the value and abnormal oracles.
-func compare(s *Spec, kinds [][]string, solo, sim [][]*OpResult, skip [][]bool, st *RunStat) []Violation {
+func compare(s *Spec, kinds [][]string, solo, sim [][]*OpResult, skip [][]bool, deadlock bool, st *RunStat) []Violation {
 	var vs []Violation
 	simAborted := false
 	for t := range sim {
@@ -245,6 +248,10 @@ func compare(s *Spec, kinds [][]string, solo, sim [][]*OpResult, skip [][]bool, 
 				continue // the run was unwound; only the calls that hung are reported
 			}
 			switch {
+			case b.Status == StAborted && deadlock:
+				v := mk("abnormal", "deadlock")
+				v.Detail = "every caller was blocked on a library lock with no release in between: the calls in flight never return (alone, each of them does)"
+				vs = append(vs, v)
 			case b.Status == StAborted:
 				v := mk("abnormal", "hang")
 				v.Detail = "the call did not return within the step budget while its solo counterpart did"
@@ -427,7 +434,16 @@ func runSpec(s *Spec, sched func(soloSteps int64), rl *raceLog) *RunResult {
 	st.Stray = vst.Stray
 	st.SoloRes, st.SimRes = solo, sim
 
-	rr.Violations = compare(s, kinds, solo, sim, skip, st)
+	rr.Violations = compare(s, kinds, solo, sim, skip, vst.Deadlock, st)
+	st.Blocked = vst.Blocked
+	st.Deadlock = vst.Deadlock
+	for t := range sim {
+		for _, r := range sim[t] {
+			if r.Status == StAborted {
+				st.Unwound = true
+			}
+		}
+	}
 	if after > before {
 		for _, v := range rl.collect() {
 			rr.Violations = append(rr.Violations, v)
